@@ -340,6 +340,10 @@ fn check_rendering(c: &mut Ctx, v: &Val, sf: usize, use_z: bool, text: &str) {
     if f.zulu != (use_z && v.off == 0) {
         c.fail("Z used although not requested / offset not zero, or not used although requested", &what);
     }
+    if f.zulu && !text.ends_with('Z') {
+        // the grammar (and the reader) take `z` too; the writer must print the upper-case letter (audit 2, L3)
+        c.fail("rendering does not end in the upper-case Z", &what);
+    }
     if !f.zulu {
         let a = (v.off as i64).abs();
         if f.neg != (v.off < 0) || f.oh != a / 3600 || f.om != a / 60 % 60 {
